@@ -64,13 +64,13 @@ CLAIMED = {
             'text': 'sequential mechanism only: in DB::apply_changes the batch starts at prev+1, the WAL append precedes the memtable insert, and prev+len is published with the mutex held and only after the unlocked WAL+memtable section has returned (O6.1); reads look up at the published sequence (O5.1)',
             'note': B_NOTE + '; reader interleavings are not explored; group commits of several writers are outside the bound (single writer at the head of the queue)', 'technique': TECH + '; event-order monitor over MIR paths'},
     'C09': {'engine': 'engine-b-mirse', 'design_ref': 'DESIGN.md section 4 C09',
-            'text': 'self-deadlock freedom of get_descriptor (3 descriptors), get_snapshot, release_snapshot, compact_range, get, new_iterator (O9.1); the background task clears its scheduled flag and wakes ALL waiters on every path (O9.2); applying a well-formed version edit never panics (the worker thread dies on such a panic) (O10.5)',
+            'text': 'self-deadlock freedom of get_descriptor (3 descriptors), get_snapshot, release_snapshot, compact_range, get, new_iterator (O9.1); the background task clears its scheduled flag and wakes ALL waiters on every path (O9.2); a writer waiting in make_room_for_write re-evaluates its conditions after every wake-up and returns once the background work is done (O9.3); coordinate_compaction never panics and leaves a manual request installed while it ran pending (O9.4); applying a well-formed version edit never panics (the worker thread dies on such a panic) (O10.5)',
             'note': B_NOTE + '; data-insensitive exploration (paths are merged by lock state per call context); queue hand-off, condition-variable liveness and every other interleaving-dependent hang are outside the claim', 'technique': TECH + '; lock-state monitor over MIR paths, native watchdog replay'},
     'C13': {'engine': 'engine-b-mirse + engine-a-kani', 'design_ref': 'DESIGN.md section 4 C13',
             'text': 'below the whole-file level: Table::get tri-state for every lookup bound over abstract block cursors (O1.6); two-level table iterator = cursor over the concatenated data blocks incl. an unreadable block (O4.3); block handles point at the written bytes (O14.3), also when a leftover file with the table number exists (O14.4); every entry reaches the data block and the filter block, index entries carry the flushed handle (O14.5); byte-level (Kani): separators / successors keep lower <= sep < upper and satisfy the index-key contract assumed by O1.6 (O13.1), InternalKey order (O1.1)',
             'note': B_NOTE + '; Engine A: Kani/CBMC on the compiled crate, shapes (key lengths 1-3) are harness constants, alloc::fmt::format stubbed; block encoding / prefix compression / snappy / footer are not covered (codec round trips exceed the memory budget)', 'technique': TECH + '; Kani/CBMC bounded model checking for byte-level units'},
     'C14': {'engine': 'engine-a-kani + engine-b-mirse', 'design_ref': 'DESIGN.md section 4 C14',
-            'text': 'Kani: a Bloom filter built from two keys (lengths 0-5, symbolic bytes, several bits_per_key) answers true for both, also when read by a policy with another bits_per_key (O14.1); Engine B: filter block builder and reader map every block offset to the same filter index (O14.2); the offset TableBuilder announces to the filter builder after a flush is exactly the next data block handle offset that Table::get later passes to the filter (O14.3); TableBuilder::add_entry adds the user key of EVERY entry to the filter, after the full block was flushed (O14.5)',
+            'text': 'Kani: a Bloom filter built from two keys (lengths 0-5, symbolic bytes, several bits_per_key) answers true for both, also when read by a policy with another bits_per_key (O14.1); Engine B: filter block builder and reader map every block offset to the same filter index (O14.2); the offset TableBuilder announces to the filter builder after a flush is exactly the next data block handle offset that Table::get later passes to the filter (O14.3); TableBuilder::add_entry adds the user key of EVERY entry to the filter, after the full block was flushed (O14.5); FilterBlockBuilder hands every added key (empty key, equal neighbours) to the filter policy (O14.6)',
             'note': 'Kani: key counts, key lengths and bits_per_key are harness constants, alloc::fmt::format stubbed; ' + B_NOTE + '; byte contents of filter blocks (serialisation of the offset array) are not covered', 'technique': 'Kani/CBMC bounded model checking of the compiled code with concrete-playback replay; ' + TECH},
     'C11': {'engine': 'engine-b-mirse', 'design_ref': 'DESIGN.md section 4 C11',
             'text': 'DB::remove_obsolete_files deletes exactly the WALs older than the version set\'s current WAL (except the one being compacted), tables / temp files neither live nor in use, manifests older than the current one, nothing after a background error, and only inside the unlocked section (O11.1, all numbers symbolic); VersionSet::get_live_files covers every level of every live version (O3.3); DB::open removes obsolete files exactly once on every successful open (O11.2); the outputs of a running compaction stay in the protected set (O11.3)',
